@@ -101,6 +101,7 @@ namespace mfuse
 
         void CheckRead();
         void CheckWrite();
+        void CheckIndex(uint32_t index) const;
         void Close();
         void CheckType(unsigned int type);
         unsigned int ReadType();
@@ -268,6 +269,18 @@ namespace mfuse
         private:
             str className;
             const rawchar_t* expectedClassName;
+        };
+
+        class InvalidObjectIndex : public Base, public Messageable
+        {
+        public:
+            InvalidObjectIndex(uint32_t indexVal);
+
+            uint32_t GetIndex() const;
+            const char* what() const noexcept override;
+
+        private:
+            uint32_t index;
         };
 
         class ReadPastEndObject : public Base, public Messageable
